@@ -1,37 +1,69 @@
 import PysnarkModel.Model.Branching
+import PysnarkModel.Spec.R1CS
 /-!
 # Reference semantics for C09: the same structured program with native Python control flow
 
-Plain Python on plain integers: `if/elif/else`, `for lv in range(bound)`,
-`k = 0; while c and k < mx: body; k += 1; if brk: break`, `x = t if c else f`.
-A run ends with the final variables, or stops with `name` (a variable read before it was bound: Python's
-`NameError`/`KeyError`) or with `uncapped`: a `for` loop was reached whose bound is outside `0 … max`,
-the precondition under which the library's `_range(bound, max=…)` stands for `range(bound)`.
+Plain Python on plain values: `if/elif/else`, `for lv in range(bound)`,
+`k = 0; while c and k < mx: body; k += 1; if brk: break`, `x = t if c else f`, `x[i][j] = e`.
+
+Values.  Python `int`s (and `bool`s, which are the ints 0 and 1) are `NLeaf.int`; the numbers that
+stand for fixed-point values are exact dyadic rationals, kept as multiples of `2^-r` (`NLeaf.fx m`
+is `m / 2^r`, `r` the resolution); lists are Python lists with value semantics for the variable that
+holds them (`PTree.node`).  Arithmetic is exact: `int ∘ int` is an `int`, anything involving a
+rational is a rational (`+`, `-`, and `*` when the product is again a multiple of `2^-r`);
+comparisons compare the numbers and give 0/1; `not`, `and`, `or` are Python's on truth values.
+
+A run ends with the final variables, or stops with `name` (a variable, input, loop variable or list
+element read before it exists: `NameError`/`KeyError`/`IndexError`), `type` (a list where a number
+is needed, a bound that is not an integer), `inexact` (a product or an initial value that is not a
+multiple of `2^-r`), or `uncapped`: a `for` loop was reached whose bound is outside `0 … max`, the
+precondition under which the library's `_range(bound, max=…)` stands for `range(bound)`.
 -/
 namespace Pysnark
 
+inductive NLeaf
+  | int (n : Int)
+  /-- the rational `m / 2^r` -/
+  | fx (m : Int)
+deriving DecidableEq, Repr
+
+/-- native values -/
+abbrev NVal := PTree NLeaf
+
+/-- the number in units of `2^-r` -/
+def NLeaf.norm (r : Nat) : NLeaf → Int
+  | .int n => n * 2 ^ r
+  | .fx m => m
+
 /-- native variables -/
-abbrev NEnv := List (Nat × Int)
+abbrev NEnv := List (Nat × NVal)
 
 namespace NEnv
-def get? : NEnv → Nat → Option Int
+def get? : NEnv → Nat → Option NVal
   | [], _ => none
   | (y, v) :: t, x => if y = x then some v else get? t x
 
-def set : NEnv → Nat → Int → NEnv
+def set : NEnv → Nat → NVal → NEnv
   | [], x, v => [(x, v)]
   | (y, w) :: t, x, v => if y = x then (y, v) :: t else (y, w) :: set t x v
 end NEnv
 
 /-- what the native program reads besides its variables -/
 structure NCtx where
-  inputs : List Int
+  /-- the resolution `r` -/
+  res : Nat
+  inputs : List NLeaf
+  finputs : List NLeaf := []
   lvs : List (Nat × Int) := []
 
 /-- how a native run can stop early -/
 inductive NErr
-  /-- `NameError`/`KeyError`/`IndexError`: a variable, input or loop variable read before it exists -/
+  /-- `NameError`/`KeyError`/`IndexError`: a variable, input, loop variable or element read before it exists -/
   | name
+  /-- `TypeError`: a list used as a number, a number indexed, a loop bound that is not an integer -/
+  | type
+  /-- a value that is not a multiple of `2^-r`: outside what fixed point at this resolution represents -/
+  | inexact
   /-- a `for` loop was reached whose bound is outside `0 … max`: outside the domain of the property
   ("a secret bound capped by a public maximum") -/
   | uncapped
@@ -39,19 +71,29 @@ deriving DecidableEq, Repr
 
 abbrev NM := Except NErr
 
-def nGet (o : Option Int) : NM Int :=
+def nGet {α} (o : Option α) : NM α :=
   match o with
   | some v => .ok v
   | none => .error .name
 
-def nEvalE (ctx : NCtx) (env : NEnv) : BExpr → NM Int
-  | .var x => nGet (env.get? x)
-  | .inp i => nGet ctx.inputs[i]?
-  | .const c => .ok c
-  | .loopvar v => nGet (lookupLv ctx.lvs v)
-  | .add a b => do let x ← nEvalE ctx env a; let y ← nEvalE ctx env b; pure (x + y)
-  | .sub a b => do let x ← nEvalE ctx env a; let y ← nEvalE ctx env b; pure (x - y)
-  | .mul a b => do let x ← nEvalE ctx env a; let y ← nEvalE ctx env b; pure (x * y)
+/-- a number (not a list) -/
+def nScalar : NVal → NM NLeaf
+  | .leaf a => .ok a
+  | .node _ => .error .type
+
+def nAdd (r : Nat) : NLeaf → NLeaf → NLeaf
+  | .int x, .int y => .int (x + y)
+  | a, b => .fx (a.norm r + b.norm r)
+
+def nSub (r : Nat) : NLeaf → NLeaf → NLeaf
+  | .int x, .int y => .int (x - y)
+  | a, b => .fx (a.norm r - b.norm r)
+
+def nMul (r : Nat) : NLeaf → NLeaf → NM NLeaf
+  | .int x, .int y => .ok (.int (x * y))
+  | a, b =>
+    let p := a.norm r * b.norm r            -- in units of `2^-2r`
+    if p % 2 ^ r = 0 then .ok (.fx (p / 2 ^ r)) else .error .inexact
 
 def cmpB : Cmp → Int → Int → Bool
   | .lt, a, b => a < b
@@ -61,10 +103,59 @@ def cmpB : Cmp → Int → Int → Bool
   | .gt, a, b => a > b
   | .ge, a, b => a ≥ b
 
+def nBool (b : Bool) : NLeaf := .int (if b then 1 else 0)
+
+/-- Python's truth value of a number -/
+def NLeaf.truthy (r : Nat) (a : NLeaf) : Bool := a.norm r != 0
+
+def nBin (f : NLeaf → NLeaf → NM NLeaf) (x y : NVal) : NM NVal := do
+  let a ← nScalar x
+  let b ← nScalar y
+  let c ← f a b
+  pure (.leaf c)
+
+mutual
+def nEvalE (ctx : NCtx) (env : NEnv) : BExpr → NM NVal
+  | .var x => nGet (env.get? x)
+  | .inp i => do let a ← nGet ctx.inputs[i]?; pure (.leaf a)
+  | .finp i => do let a ← nGet ctx.finputs[i]?; pure (.leaf a)
+  | .const c => .ok (.leaf (.int c))
+  | .loopvar v => do let k ← nGet (lookupLv ctx.lvs v); pure (.leaf (.int k))
+  | .add a b => do let x ← nEvalE ctx env a; let y ← nEvalE ctx env b; nBin (fun p q => .ok (nAdd ctx.res p q)) x y
+  | .sub a b => do let x ← nEvalE ctx env a; let y ← nEvalE ctx env b; nBin (fun p q => .ok (nSub ctx.res p q)) x y
+  | .mul a b => do let x ← nEvalE ctx env a; let y ← nEvalE ctx env b; nBin (nMul ctx.res) x y
+  | .cmp op a b => do
+    let x ← nEvalE ctx env a; let y ← nEvalE ctx env b
+    nBin (fun p q => .ok (nBool (cmpB op (p.norm ctx.res) (q.norm ctx.res)))) x y
+  | .not a => do
+    let x ← nEvalE ctx env a
+    let p ← nScalar x
+    pure (.leaf (nBool (!p.truthy ctx.res)))
+  | .and a b => do
+    let x ← nEvalE ctx env a; let y ← nEvalE ctx env b      -- `&` evaluates both operands
+    nBin (fun p q => .ok (if p.truthy ctx.res then q else p)) x y
+  | .or a b => do
+    let x ← nEvalE ctx env a; let y ← nEvalE ctx env b
+    nBin (fun p q => .ok (if p.truthy ctx.res then p else q)) x y
+  | .list es => do let ts ← nEvalEs ctx env es; pure (.node ts)
+  | .item e i => do
+    let t ← nEvalE ctx env e
+    match t with
+    | .node ts => nGet ts[i]?
+    | .leaf _ => .error .type
+def nEvalEs (ctx : NCtx) (env : NEnv) : BExprs → NM (List NVal)
+  | .nil => .ok []
+  | .cons e es => do
+    let t ← nEvalE ctx env e
+    let ts ← nEvalEs ctx env es
+    pure (t :: ts)
+end
+
+/-- the truth value of a condition -/
 def nEvalC (ctx : NCtx) (env : NEnv) (c : BCond) : NM Bool := do
-  let x ← nEvalE ctx env c.lhs
-  let y ← nEvalE ctx env c.rhs
-  pure (cmpB c.op x y)
+  let v ← nEvalE ctx env c
+  let p ← nScalar v
+  pure (p.truthy ctx.res)
 
 /-- `for i in range(start, start + n): e = f(i, e)` -/
 def nIter : Nat → (Nat → NEnv → NM NEnv) → Nat → NEnv → NM NEnv
@@ -91,10 +182,24 @@ def nBrk (ctx : NCtx) (brk : Option BCond) (e : NEnv) : NM Bool :=
   | none => .ok false
   | some b => nEvalC ctx e b
 
+/-- the loop bound as an integer -/
+def nBound (r : Nat) (v : NVal) : NM Int := do
+  let p ← nScalar v
+  if p.norm r % 2 ^ r = 0 then pure (p.norm r / 2 ^ r) else .error .type
+
 mutual
 def nStmt (ctx : NCtx) : BStmt → NEnv → NM NEnv
   | .assign x e, env => do
     let v ← nEvalE ctx env e
+    pure (env.set x v)
+  | .setitem x path e, env => do
+    let v ← nEvalE ctx env e
+    let old ← nGet (env.get? x)
+    let new ← nGet (old.set path v)
+    pure (env.set x new)
+  | .sel x c t f, env => do
+    let b ← nEvalC ctx env c
+    let v ← if b then nEvalE ctx env t else nEvalE ctx env f
     pure (env.set x v)
   | .ite x c t f, env => do
     let b ← nEvalC ctx env c
@@ -104,7 +209,8 @@ def nStmt (ctx : NCtx) : BStmt → NEnv → NM NEnv
     let b ← nEvalC ctx env c
     if b then nBlock ctx body env else nIfRest ctx rest env
   | .forr lv bound mx body, env => do
-    let b ← nEvalE ctx env bound
+    let bv ← nEvalE ctx env bound
+    let b ← nBound ctx.res bv
     if 0 ≤ b ∧ b ≤ mx then
       nIter b.toNat (fun i e => nBlock { ctx with lvs := (lv, (i : Int)) :: ctx.lvs } body e) 0 env
     else .error .uncapped
@@ -125,8 +231,121 @@ def nIfRest (ctx : NCtx) : BIfRest → NEnv → NM NEnv
     if t then nBlock ctx b env else nIfRest ctx rest env
 end
 
-/-- the native twin of `runBlock` -/
-def nativeRun (init : List (Nat × Int)) (inputs : List Int) (prog : BBlock) : NM NEnv :=
-  nBlock { inputs := inputs } prog (init.foldl (fun e kv => e.set kv.1 kv.2) [])
+/-! ## initial values -/
+
+/-- the plain value behind `PrivVal(v)`, `PrivVal(v) == 1`, `PrivValFxp(m / 2^e)` -/
+def nLeaf (r : Nat) : ILeaf → NM NLeaf
+  | .int v => .ok (.int v)
+  | .bool v => .ok (nBool (v == 1))
+  | .fxp m e => if (m * 2 ^ r) % 2 ^ e = 0 then .ok (.fx (m * 2 ^ r / 2 ^ e)) else .error .inexact
+
+mutual
+def nInit (r : Nat) : IVal → NM NVal
+  | .leaf a => do let b ← nLeaf r a; pure (.leaf b)
+  | .node ts => do let rs ← nInitL r ts; pure (.node rs)
+def nInitL (r : Nat) : List IVal → NM (List NVal)
+  | [] => .ok []
+  | t :: ts => do
+    let v ← nInit r t
+    let vs ← nInitL r ts
+    pure (v :: vs)
+end
+
+def nInitVars (r : Nat) : List (Nat × IVal) → NEnv → NM NEnv
+  | [], env => .ok env
+  | (x, v) :: rest, env => do
+    let w ← nInit r v
+    nInitVars r rest (env.set x w)
+
+def nLeaves (r : Nat) : List ILeaf → NM (List NLeaf)
+  | [] => .ok []
+  | a :: as => do
+    let b ← nLeaf r a
+    let bs ← nLeaves r as
+    pure (b :: bs)
+
+/-- the plain values the run starts from: variables, inputs (`NErr.inexact`: an initial fixed-point
+value is not a multiple of `2^-r`) -/
+def nativeInit (r : Nat) (init : List (Nat × IVal)) (inputs : List Int) (finputs : List (Int × Nat)) :
+    NM (NEnv × NCtx) := do
+  let env ← nInitVars r init []
+  let inp ← nLeaves r (inputs.map ILeaf.int)
+  let finp ← nLeaves r (finputs.map (fun me => ILeaf.fxp me.1 me.2))
+  pure (env, { res := r, inputs := inp, finputs := finp })
+
+/-- the native twin of `runBlockT`, at resolution `r` -/
+def nativeRunT (r : Nat) (init : List (Nat × IVal)) (inputs : List Int) (finputs : List (Int × Nat)) (prog : BBlock) :
+    NM NEnv := do
+  let (env, nc) ← nativeInit r init inputs finputs
+  nBlock nc prog env
+
+/-- the native twin of `runBlock` (integer variables and inputs only) -/
+def nativeRun (r : Nat) (init : List (Nat × Int)) (inputs : List Int) (prog : BBlock) : NM NEnv :=
+  nativeRunT r (init.map (fun kv => (kv.1, PTree.leaf (ILeaf.int kv.2)))) inputs [] prog
+
+/-! ## when a value of the library *is* a native value
+
+Both sides are read as numbers in units of `2^-r`: a `LinComb`, a `LinCombBool` and a plain int
+stand for the integer they hold, a `LinCombFxp` for `value / 2^r`; lists element-wise. -/
+
+/-- the number a scalar of the library stands for, in units of `2^-r` -/
+def SVal.den (r : Nat) : SVal → Int
+  | .pub c => c * 2 ^ r
+  | .sc .fxp l _ => l.value
+  | .sc _ l _ => l.value * 2 ^ r
+
+/-- numbers in units of `2^-r`, lists of them -/
+abbrev DVal := PTree Int
+
+def denT (r : Nat) (t : TVal) : DVal := t.map (SVal.den r)
+def denN (r : Nat) (v : NVal) : DVal := v.map (NLeaf.norm r)
+
+/-- a `LinCombBool` holds 0 or 1 -/
+def SVal.bok : SVal → Bool
+  | .sc .bool l _ => l.value == 0 || l.value == 1
+  | _ => true
+
+def TVal.bok (t : TVal) : Bool := t.all SVal.bok
+
+mutual
+/-- every leaf of a (nested) list satisfies `P` -/
+def PTree.AllP {α : Type} (P : α → Prop) : PTree α → Prop
+  | .leaf a => P a
+  | .node ts => PTree.AllPL P ts
+def PTree.AllPL {α : Type} (P : α → Prop) : List (PTree α) → Prop
+  | [] => True
+  | t :: ts => PTree.AllP P t ∧ PTree.AllPL P ts
+end
+
+/-- the wrapped `LinComb` of a scalar (if it is not a plain int) satisfies `P` -/
+def SVal.lcP (P : LinComb → Prop) : SVal → Prop
+  | .pub _ => True
+  | .sc _ l _ => P l
+
+/-- an object whose deep copy is the object itself: a `LinComb` (`LinComb.__deepcopy__` returns
+`self`); `LinCombBool` and `LinCombFxp` are re-created by `copy.deepcopy` -/
+def SVal.stable : SVal → Bool
+  | .sc .int _ (some _) => true
+  | _ => false
+
+/-- a secret integer, or a (nested) list of secret integers -/
+def TVal.stable (t : TVal) : Bool := t.all SVal.stable
+
+def Vals.valOf (r : Nat) (vs : Vals) (x : Nat) : Option DVal := (vs.get? x).map (denT r)
+def NEnv.valOf (r : Nat) (E : NEnv) (x : Nat) : Option DVal := (E.get? x).map (denN r)
+
+def Vals.bok (vs : Vals) : Prop := ∀ kv ∈ vs, kv.2.bok = true
+
+/-- the tracked variables are exactly the native variables and hold the same numbers (fixed point
+by representation); every tracked boolean is 0 or 1 -/
+structure RefV (r : Nat) (vals : Vals) (E : NEnv) : Prop where
+  eq : ∀ x, vals.valOf r x = E.valOf r x
+  bok : vals.bok
+
+/-- every scalar of a value is coherent with its wire expression -/
+def CohT (s : St) (t : TVal) : Prop := t.AllP (SVal.lcP (Coh s))
+
+/-- every boolean of a value holds 0 or 1 -/
+def BoolT (t : TVal) : Prop := t.bok = true
 
 end Pysnark
